@@ -659,7 +659,9 @@ class Evaluator:
             if isinstance(a, Const) and isinstance(b, Const) and (a.v is None or b.v is None or isinstance(a.v, bool)):
                 r = a.v is b.v
                 return Const(r if op == "is" else not r)
-            if isinstance(b, Const) and b.v is None and isinstance(a, (Num, Seq, DictV, Closure, ClassRef, Template)):
+            if isinstance(b, Const) and b.v is None and (isinstance(a, (Num, Seq, DictV, Closure, ClassRef, Template, MapV, StrSym)) or (isinstance(a, Opaque) and a.kind in ("new", "obj", "copy", "deepcopy"))):
+                return Const(op == "isnot")
+            if isinstance(a, Const) and a.v is None and (isinstance(b, (Num, Seq, DictV, Closure, ClassRef, Template)) or (isinstance(b, Opaque) and b.kind in ("new", "obj", "copy", "deepcopy"))):
                 return Const(op == "isnot")
             ka, kb = key(a), key(b)
             if ka == kb and (isinstance(a, (Seq, DictV)) and a.ident is not None or isinstance(a, Opaque)):
@@ -1257,6 +1259,15 @@ class Evaluator:
                 return Seq(a.kind, list(reversed(a.items)), ident="A:reversed")
             return Opaque("reversed(%s)" % key(a), cls=getattr(a, "cls", None))
         if name == "isinstance" and len(args) == 2:
+            a, k = args
+            kn = k.name if isinstance(k, Ext) else None
+            if kn in ("dict", "list", "tuple"):
+                if isinstance(a, DictV):
+                    return Const(kn == "dict")
+                if isinstance(a, Seq):
+                    return Const(kn == a.kind)
+                if isinstance(a, (Num, Closure, Template)) or (isinstance(a, Opaque) and a.kind in ("new", "obj")) or (isinstance(a, Const) and not isinstance(a.v, (dict, list, tuple))):
+                    return FALSE
             return Cond(("isinstance", args[0], args[1]))
         if name == "callable" and len(args) == 1:
             if isinstance(args[0], (Closure, ClassRef, Ext)):
